@@ -178,6 +178,42 @@ fn main() {
         }
     }
     let s4 = cli_jobs.par_iter().map(|(args, stdin, fmt, prefix)| { let mut st = Stats::default(); let _ = cli_case(&ctx, args, stdin.as_deref(), fmt, prefix, &mut st); st }).reduce(Stats::default, Stats::merge);
+    // --output-prefix layer: every prefix over a 6-symbol alphabet up to length 3 (+ specials) x commands x formats;
+    // stdout must be exactly prefix ++ (the same run without --output-prefix)
+    let mut prefixes: Vec<String> = { let m = std::sync::Mutex::new(vec![]); for_each_string(&[" ", "v", "\t", "-", "é", "1"], 3, |x, _n, _st| m.lock().unwrap().push(x.to_string())); let mut v = m.into_inner().unwrap(); v.sort(); v };
+    prefixes.extend(["rel-", "release/", "  v  ", "{{ major }}", "%s", "\\", "\"", "v1.2.3-", "+", "\u{a0}v", "\r"].iter().map(|s| s.to_string()));
+    let a = |v: &[&str]| v.iter().map(|s| s.to_string()).collect::<Vec<String>>();
+    let prefix_bases: Vec<(Vec<String>, Option<String>)> = vec![
+        (a(&["version", "--source", "none", "--tag-version", "1.2.3-rc.1", "--distance", "2", "--bumped-branch", "main"]), None),
+        (a(&["version", "--source", "stdin"]), Some(stdin_doc.clone())),
+        (a(&["flow", "--source", "none", "--tag-version", "1.2.3", "--distance", "1", "--bumped-branch", "develop"]), None),
+        (a(&["render", "1!2.3.4rc5.post6.dev7+L"]), None),
+    ];
+    let s6 = prefixes.par_iter().map(|px| {
+        let mut st = Stats::default();
+        for (base, stdin) in &prefix_bases { for fmt in ["semver", "pep440"] {
+            st.inc("prefix_cases");
+            let mut plain = base.clone(); plain.extend(a(&["--output-format", fmt]));
+            let mut with = plain.clone(); with.push(format!("--output-prefix={px}"));
+            let (r0, r1) = (zv::run_cli(&plain, stdin.as_deref()), zv::run_cli(&with, stdin.as_deref()));
+            let key = format!("{with:?}");
+            let case = json!({"kind":"cli","args":with,"stdin":stdin,"format":fmt,"prefix":px});
+            match (r0, r1) {
+                (Ok(Res::Ok(v)), Ok(Res::Ok(out))) => { if out != format!("{px}{v}") { ctx.violation("prefix_not_verbatim", key, case, format!("stdout {out:?}, expected {:?}", format!("{px}{v}"))); } }
+                (_, Err(p)) => ctx.violation(&format!("panic@{}", p.file()), key, case, p.message),
+                (Ok(Res::Ok(_)), Ok(other)) => ctx.violation("prefix_makes_run_fail", key, case, format!("{other:?}")),
+                _ => { st.inc("cli_rejected"); }
+            }
+        }}
+        st
+    }).reduce(Stats::default, Stats::merge);
+    // the same through the real binary for a slice of prefixes: stdout bytes are exactly prefix ++ version ++ "\n"
+    for px in prefixes.iter().step_by(9) {
+        let plain = a(&["version", "--source", "none", "--tag-version", "1.2.3", "--output-format", "semver"]);
+        let mut with = plain.clone(); with.push(format!("--output-prefix={px}"));
+        let (o0, o1) = (zv::run_bin(&plain, None, &[], None), zv::run_bin(&with, None, &[], None));
+        if o0.status != 0 || o1.status != 0 || o1.stdout_str() != format!("{px}{}", o0.stdout_str()) { ctx.violation("prefix_not_verbatim_binary", format!("{with:?}"), json!({"kind":"proc"}), format!("plain {:?} with prefix {:?}", o0.stdout_str(), o1.stdout_str())); }
+    }
     // binary slice: exactly one line on stdout
     let slice: Vec<&(Vec<String>, Option<String>, &str, &str)> = cli_jobs.iter().step_by((cli_jobs.len() / 150).max(1)).collect();
     let bad: Vec<(String, String)> = slice.par_iter().filter_map(|(args, stdin, _fmt, _p)| {
@@ -194,14 +230,14 @@ fn main() {
     let d = |()| for_each_string(&sigma10, 2, |x, _n, st| explore_text(&ctx, x, st)).digest;
     if d(()) != d(()) { machinery_error("determinism replay diverged"); }
 
-    let all = s1.clone().merge(s2).merge(s3).merge(s4).merge(s5.clone());
+    let all = s1.clone().merge(s2).merge(s3).merge(s4).merge(s5.clone()).merge(s6);
     let mut cov = Coverage::default();
-    cov.states = all.get("texts") * POSITIONS.len() as u64 + all.get("numeric_cases") + all.get("cli_runs");
+    cov.states = all.get("texts") * POSITIONS.len() as u64 + all.get("numeric_cases") + all.get("cli_runs") + all.get("prefix_cases");
     cov.transitions = all.get("renders") + all.get("cli_runs");
     cov.evaluations = all.get("renders") + all.get("cli_runs") + all.get("rerender_checks");
     cov.traces_validated = cov.evaluations;
     cov.distinct_nontrivial = all.get("texts") + all.get("numeric_cases");
-    cov.rule = format!("every string over {sigma10:?} up to length {l} plus {} special texts (zero-padded digit runs around u32/u64, 300-char text, control characters, case-folding look-alikes, combining marks) placed in each of {} text positions in turn, rendered under every preset that prints the position (of 22) and 5 custom schemas (text components in core / extra_core / build / leading / text-only) in both formats via SemVer::from / PEP440::from; numbers [0,1,2^32-1,2^32,2^64-1] in 9 numeric variables; {} in-process CLI runs (sources none+stdin, --schema/--schema-ron, --custom, --output-prefix, overrides and bumps) and a binary slice. Oracle: ASCII + reference grammar (R-SV / R-PEP normal form) + accepted by zerv's own parser + re-render fixed point for presets. non-trivial = distinct texts / numeric cases", specials.len(), POSITIONS.len(), cli_jobs.len());
+    cov.rule = format!("every string over {sigma10:?} up to length {l} plus {} special texts (zero-padded digit runs around u32/u64, 300-char text, control characters, case-folding look-alikes, combining marks) placed in each of {} text positions in turn, rendered under every preset that prints the position (of 22) and 5 custom schemas (text components in core / extra_core / build / leading / text-only) in both formats via SemVer::from / PEP440::from; numbers [0,1,2^32-1,2^32,2^64-1] in 9 numeric variables; {} in-process CLI runs (sources none+stdin, --schema/--schema-ron, --custom, --output-prefix, overrides and bumps) and a binary slice; every --output-prefix over [space, v, TAB, -, é, 1] up to length 3 plus 11 special prefixes x version(none, stdin) / flow / render x both formats: stdout == prefix ++ unprefixed output. Oracle: ASCII + reference grammar (R-SV / R-PEP normal form) + accepted by zerv's own parser + re-render fixed point for presets. non-trivial = distinct texts / numeric cases", specials.len(), POSITIONS.len(), cli_jobs.len());
     cov.exhaustive = true;
     cov.samples = vec![json!({"text":"é-0","position":"branch","schema":"standard-context"}), json!({"text":"00012345678901234567890123","position":"custom","schema":"all_in_extra_core"}), json!(cli_jobs[cli_jobs.len() / 2].0)];
     cov.set("clause_counts", all.to_json());
